@@ -82,6 +82,20 @@ def run(rep, tier, driver):
                         got = got[:-1]
                     if got != want_lines:
                         rep.violation("batch", {"call": call, "path": name}, {"lines": got[:5], "n": len(got)}, {"lines": want_lines[:5], "n": len(want_lines)}, key="stdout:%s:%d" % (name, bi))
+            # tie of the Lean Model of the sinks (C12_sinks_agree, C12_direct_use) to converter.py: the model, given the same per-glycan
+            # outcomes, must produce the same pairs / file lines / stdout lines as the Spec expects of the code
+            if driver is not None:
+                conv = {x: s for x, s in want_pairs if s}
+                for sink in ("return", "file", "stdout"):
+                    a = driver.ask({"op": "convert", "gen_fn": False, "single": [], "list": [{"s": x} for x in xs], "file": None, "gen": None,
+                                    "conv": conv, "verbose_none": True, "sink": sink, "logger_disabled": False})
+                    rep.count("sink-model-" + sink)
+                    ok = (a.get("pairs") == want_pairs) if sink == "return" else ((a.get("file") if sink == "file" else a.get("stdout")) == want_lines)
+                    if not ok or a.get("logger_after") is not False:
+                        rep.broken.append("sink model (%s) disagrees with the Spec lines on batch %d" % (sink, bi))
+                a = driver.ask({"op": "convert", "gen_fn": True, "single": [], "list": [{"s": x} for x in xs], "file": None, "gen": None, "conv": conv, "verbose_none": True})
+                if a.get("pairs") != want_pairs:
+                    rep.broken.append("generator model disagrees with the Spec pairs on batch %d" % bi)
             # command line tool in a scratch directory
             inp = os.path.join(scratch, "in_%d.txt" % bi)
             outp = os.path.join(scratch, "out_%d.txt" % bi)
